@@ -16,7 +16,9 @@ RULE = ("generated topologies: 1..300 atoms quick / to 3000 thorough; shapes cha
         "increasing atom numbers with random gaps; bonds spread over constraints/bonds/pairs, sections split into repeated "
         "occurrences and permuted (bonds before atoms included), unrelated sections, comment/blank/preprocessor lines, "
         "varied spacing, integer spellings (+5, 007, 1_000), trailing comments, CRLF files, missing final newline; "
-        "malformed stream (missing sections, empty atoms, unknown atom number, short lines, bad integers) compared by error "
+        "size-boundary stream every run (499/500/501/502, ~800, ~1200 atoms: connected; one isolated atom at the end / start / "
+        "middle; k trailing isolated atoms; two large components; chain or cyclic graph + trailing isolated atom), expected "
+        "connectivity by union-find; malformed stream (missing sections, empty atoms, unknown atom number, short lines, bad integers) compared by error "
         "class; shipped topologies. A case is non-trivial when its text is distinct.")
 
 
@@ -147,6 +149,18 @@ def corpus(ctx):
         text = ic.render_topology(rs, t, deco=False)
         check_generated(ctx, text, ic.expected_topology(t), key="long_chain", label="chain of %d atoms" % n)
         S["corpus"] += 1
+    # size-boundary witnesses (an are_connected that switches algorithm above 500 atoms and sizes the graph from the
+    # bonds forgets trailing unbonded atoms): tree on 1197 atoms + 3 trailing unbonded, cyclic graph on 800 atoms + 1
+    # trailing unbonded, control with the unbonded atom in the middle, trailing unbonded just above the threshold
+    wit = [("tree1197+3", 1200, ic.tree_on(rs, range(1197))),
+           ("cyclic800+1", 801, ic.tree_on(rs, range(800)) + [(int(rs.randint(0, 800)), int(rs.randint(0, 800))) for _ in range(50)]),
+           ("tree1199_mid", 1200, ic.tree_on(rs, [x for x in range(1200) if x != 600])),
+           ("chain500+1", 501, [(k, k + 1) for k in range(499)])]
+    for label, n, bonds in wit:
+        t = ic.gen_topology(rs, n, label, deco=False, bonds=[b for b in bonds if b[0] != b[1]], spread=True)
+        text = ic.render_topology(rs, t, deco=False)
+        check_generated(ctx, text, ic.expected_topology(t), key="size_boundary", label="%s (%d atoms)" % (label, n))
+        S["corpus"] += 1
     # renumbered atoms, bonds over three sections written before the atoms section, comments glued to fields
     text = ("; header\n[ pairs ]\n40 7 1\n[ bonds ]\n7 12 1;c\n#ifdef X\n[ moleculetype ]\n; name nrexcl\nM-1 3 ; c\n"
             "[ atoms ]\n  7 C 1 RES C1 7 0.0 12.0\n 12 C 1 RES C2 12 ; q\n\n 40 H 2 RES H1 40\n[ constraints ]\n12 40\n#endif\n[ bonds ]\n40 40 1\n")
@@ -228,6 +242,28 @@ def correspondence(ctx):
         add_file(text, path, "malformed:" + tag)
     for p in ic.shipped_topologies(include_large=not ctx.quick):
         add_file(None, p, "shipped")
+    # size boundaries (499..502, ~800, ~1200 atoms; isolated atoms / second component at the end, start, middle):
+    # real AtomTop lists loaded from files; the adjacency in the implementation's iteration order goes to the model
+    from gaddlemaps.components import MoleculeTop, are_connected
+    bnd = ic.boundary_graphs(rs)
+    for k, (label, n, bonds) in enumerate(bnd):
+        t = ic.gen_topology(rs, n, label, deco=False, bonds=bonds, spread=True)
+        text = ic.render_topology(rs, t, deco=False)
+        path = ic.write_text(text)
+        if k in (7, 20):          # two of them through the whole text model as well
+            add_file(text, path, "boundary:" + label.rsplit("_", 1)[0], ic.expected_topology(t))
+        else:
+            mol = MoleculeTop(path)
+            adj = [list(a.bonds) for a in mol]
+            oc = ic.guarded(lambda: bool(are_connected(mol.atoms)))
+            cases.append("chk_conn %s %s" % (ic.clist(ic.clist(ic.cz(x) for x in b) for b in adj), ic.cres(oc, ic.cb)))
+            meta.append({"kind": "adjacency", "gen": "boundary:" + label, "adj": adj})
+        hist["boundary"] = hist.get("boundary", 0) + 1
+        ctx.count(("boundary", label, len(bonds)))
+        bad = oracle_topology(path, ic.expected_topology(t))
+        if bad:
+            ctx.violation("topology %s (%d atoms): %s" % (label, n, "; ".join(bad[:4])),
+                          replay_dict(text, ic.expected_topology(t)), key="size_boundary")
     # are_connected on explicit adjacency lists (directed, unordered, out of range, empty)
     for _ in range(ctx.n(150, 1500)):
         n = int(rs.randint(0, 9))
@@ -302,6 +338,19 @@ def oracle(ctx, scale):
         hist[shape] = hist.get(shape, 0) + 1
         ctx.count(("S", text))
         fails += bool(bad)
+    # size boundaries: see ic.boundary_graphs
+    nb = 0
+    for _ in range(scale):
+        for label, n, bonds in ic.boundary_graphs(rs):
+            t = ic.gen_topology(rs, n, label, deco=False, bonds=bonds, spread=True)
+            text = ic.render_topology(rs, t, deco=False)
+            _, bad = check_generated(ctx, text, ic.expected_topology(t), key="size_boundary", label="%s (%d atoms)" % (label, n))
+            kind = label.rsplit("_", 1)[0]
+            hist["boundary:" + kind] = hist.get("boundary:" + kind, 0) + 1
+            ctx.count(("Sb", label, text))
+            fails += bool(bad)
+            nb += 1
+    S["size_boundary_files_x%d" % scale] = nb
     # shipped molecules: connected by construction of the package data; copy semantics
     from gaddlemaps.components import MoleculeTop
     for p in ic.shipped_topologies(include_large=not ctx.quick):
